@@ -982,7 +982,9 @@ func checkRegistration(r *Report, p *Prog) {
 			guarded := false
 			cnd := fm.Cond(st.Block())
 			for _, nm := range am.B.Support(cnd) {
-				if strings.HasPrefix(nm, "ok:") && strings.Contains(nm, "rsa.") && (strings.Contains(nm, "ServiceProvider.Key") || strings.Contains(nm, "Certificate.PublicKey")) && am.B.Implies(cnd, am.B.Var(nm)) {
+				ai := am.Atoms[nm]
+				isTypeTest := strings.HasPrefix(nm, "ok:") || ai != nil && (ai.Kind == "typeis" || ai.Kind == "ok")
+				if isTypeTest && strings.Contains(nm, "rsa.") && (strings.Contains(nm, "ServiceProvider.Key") || strings.Contains(nm, "Certificate.PublicKey")) && am.B.Implies(cnd, am.B.Var(nm)) {
 					guarded = true
 				}
 			}
